@@ -485,6 +485,8 @@ def run(chk, args):
                 classes[i] = "index-corrupted"
                 todo.remove(i)
         # rare: neither alone explains the window -> both together; then an unbounded look-back
+        # (the ladder below is expensive: at most 8 windows go through it, the others stay "unexplained")
+        todo = todo[:8]
         for name, d, k in (("both", "both", None), ("stale-all", "stale", "all"), ("both-all", "both", "all")):
             if not todo:
                 break
